@@ -59,7 +59,11 @@ func (t SnipT) buildM(sc *[]func()) any {
 	case "comment":
 		return snippet.Comment(t.S)
 	case "directive":
-		return snippet.GoDirective(t.S, t.Strs...)
+		// the way a generator with a slice of arguments calls it — and it has just built another directive from the very
+		// same slice: the arguments are the caller's, before and after
+		args := append([]string(nil), t.Strs...)
+		_ = snippet.GoDirective(t.S, args...)
+		return snippet.GoDirective(t.S, args...)
 	case "raw":
 		return rawArgs[t.Raw].v
 	case "seq":
